@@ -1,8 +1,12 @@
+mod clock;
 mod membership;
 mod selector;
 
 fn main() {
     let cmd = std::env::args().nth(1).unwrap_or_default();
+    if cmd == "record-clock" {
+        return clock::record();
+    }
     let rt = tokio::runtime::Builder::new_multi_thread().worker_threads(8).enable_all().build().unwrap();
     match cmd.as_str() {
         "replay-selector" => rt.block_on(selector::replay()),
